@@ -337,10 +337,25 @@ def suite_c10(seed, thorough):
                     bad = ("cache", i_cache, m_cache)
                 elif io is not None:
                     i_status = "(l" + "".join(f" ({b} {hx(p)})" for b, p in io[1]) + ")"
-                    if i_status != m_status:
+                    # byte-identical targets race for one cache entry under the OS scheduler (see real_hist below): then only
+                    # the reported paths, in order, are compared
+                    contents = [files[p][0] for _, p in io[1] if p in files]
+                    if len(set(contents)) < len(contents):
+                        res.count("status:racing-identical-targets")
+                        i_paths = [hx(p) for _, p in io[1]]
+                        m_paths = [x.strip("()").split(" ")[1] for x in split_top(m_status)[1:]]
+                        if i_paths != m_paths:
+                            bad = ("status-paths", str(i_paths), str(m_paths))
+                    elif i_status != m_status:
                         bad = ("status", i_status, m_status)
                     elif (io[2] == "") != (m_verdict == "ok"):
                         bad = ("verdict", io[2] or "ok", m_verdict)
+                if bad and bad[0] in ("cache", "status", "status-paths") and i_files == m_files:
+                    # see real_hist: byte-identical contents race for one cache entry under the OS scheduler
+                    cs = [c for p, (c, _) in (files or {}).items() if p not in ("build.rules", "a", "b", "c")] + [c for _, (c, _) in (cache or {}).items()]
+                    if len(set(cs)) < len(cs):
+                        res.count("not-compared-further:byte-identical-contents-race-under-the-os-scheduler")
+                        break
                 if bad:
                     res.diffs.append({"index": idx, "case": case[:3000], "impl": f"{bad[0]}: {bad[1][:1500]}", "model": f"{bad[0]}: {bad[2][:1500]}"})
                     break
@@ -471,12 +486,37 @@ def suite_hist(seed, thorough):
                     res.count("invocations")
                     i_status = sorted(f"({b} {hx(p)})" for b, p in io[1])
                     m_stat = sorted(split_top(m_status)[1:])
-                    if i_status != m_stat:
+                    # Rules whose targets are byte-identical race for ONE cache entry under the OS scheduler: which of them
+                    # is Recovered and which runs its command (Built, for all its targets) depends on the schedule, while
+                    # verdict and file contents do not (Properties/C06 racing_rules_example; the model is the serial
+                    # schedule). When two reported targets hold the same bytes, only the set of reported paths is compared.
+                    reported = [p for _, p in io[1]]
+                    contents = [files[p][0] for p in reported if p in files]
+                    racing = len(set(contents)) < len(contents)
+                    if racing:
+                        res.count("status:racing-identical-targets")
+                        i_paths = sorted(hx(p) for p in reported)
+                        m_paths = sorted(x.strip("()").split(" ")[1] for x in m_stat)
+                        if i_paths != m_paths:
+                            bad = ("status-paths", str(i_paths), str(m_paths))
+                    elif i_status != m_stat:
                         bad = ("status", str(i_status), str(m_stat))
                     elif (io[3] == 0 and io[2] == "") != (m_verdict == "ok"):
                         bad = ("verdict", f"exit {io[3]} stderr {io[2][:200]!r}", m_verdict)
                     else:
                         res.count("verdict:" + ("ok" if m_verdict == "ok" else "not-ok"))
+                if bad and bad[0] in ("cache", "status", "status-paths", "history-files") and i_files == m_files:
+                    # The real binary runs its rule threads under the OS scheduler; the model is the serial schedule. Verdict and
+                    # workspace files do not depend on the schedule (C06), but when byte-identical contents are around (two
+                    # targets, a leftover of a failing rule, a tampered file: one cache entry per content) WHO restores the entry,
+                    # who rebuilds and whether the entry is left behind do. Such a history is not compared any further.
+                    def twins(fs, ch):
+                        cs = [c for p, (c, _) in (fs or {}).items() if p not in ("build.rules", "a", "b", "c")] + [c for _, (c, _) in (ch or {}).items()]
+                        return len(set(cs)) < len(cs)
+                    prev = log[idx - 1] if idx > 0 else (None, {}, {}, None)
+                    if twins(files, cache) or twins(prev[1], prev[2]):
+                        res.count("not-compared-further:byte-identical-contents-race-under-the-os-scheduler")
+                        break
                 if bad:
                     res.diffs.append({"index": idx, "case": case[:3000], "impl": f"{bad[0]}: {bad[1][:1500]}", "model": f"{bad[0]}: {bad[2][:1500]}"})
                     break
